@@ -131,11 +131,22 @@ SELFTEST_FILES = {
 }
 
 
+def norm_name(nm):
+    """obligation names as compared with the baseline: without source line numbers, ordinals, and the function an exit was raised in — renaming or
+    moving a raise into a helper, or shifting lines, is not a change of the set of obligations"""
+    import re as _re
+    nm = _re.sub(r"#\d+", "", _re.sub(r":\d+", "", nm))
+    nm = _re.sub(r"@[\w.<>]+", "", nm)                               # [raise:ValueError@GState._validate_feed_rate] -> [raise:ValueError]
+    nm = _re.sub(r" ?\[[A-Z]\w*\.[\w.<>]+\]", "", nm)                 # a bare location tag [BoundManager.set_bounds]
+    nm = _re.sub(r"(/engine/exits-(?:exclusive|exhaustive))/\d+", r"\1", nm)
+    return nm
+
+
 def report(prop, tier, seed, results, bounded, kf, known_by_id, wall, a, selftest=None):
     os.makedirs(os.path.join(ROOT, "evidence"), exist_ok=True)
     os.makedirs(os.path.join(ROOT, "replays"), exist_ok=True)
     import re as _re
-    def norm(nm): return _re.sub(r"#\d+", "", _re.sub(r":\d+", "", nm))          # names without source line numbers / ordinals: harmless edits shift lines
+    norm = norm_name
     writing = os.environ.get("VERIF_WRITE_BASELINE") == "1"
     baseline = [] if writing else [norm(b) for b in load_json(os.path.join(ROOT, "baseline_obligations.json"), {}).get(prop, [])]
     obls, errors, functions, trusted, known_present, known_gone = [], [], {}, set(), set(), set()
@@ -168,9 +179,9 @@ def report(prop, tier, seed, results, bounded, kf, known_by_id, wall, a, selftes
         names.add(o["name"])
         if o["status"] == "violated": violations.append(o)
         elif o["status"] == "undecided":
-            if o["kind"] not in ("cover", "canary", "known") and norm(o["name"]) in baseline:
-                o["note"] = "discharged on the baseline tree, undecided now"; violations.append(o)
-            else: undecided.append(o)
+            # a solver 'unknown' / timeout is never reported as a violation, even when the obligation was discharged on the baseline tree: exit 2
+            if o["kind"] not in ("cover", "canary", "known") and norm(o["name"]) in baseline: o["note"] = "discharged on the baseline tree, undecided now"
+            undecided.append(o)
         elif o["status"] in ("vacuous", "engine-disagreement"): engine.append(o)
     for b in bounded:
         if b.get("status") == "violated": violations.append({"name": "bounded/" + b["name"], "kind": "bounded", "replay": b.get("replay"), "status": "violated", "bounded": True})
